@@ -713,6 +713,11 @@ pub fn gen(r: &mut Rng, cases: usize, size: usize, extra: &[String], out: &mut O
                     } else {
                         all_flags.iter().copied().filter(|_| r.chance(2, 5)).collect()
                     };
+                    // wide frameworks: the single-formula rewriting built at call time (--stmrew2: the conjunction of
+                    // all equivalences statement <-> condition in statement order) can need minutes and gigabytes beyond
+                    // about 100 statements in the library-based arms; that is a resource matter, not a statement of C15,
+                    // and a slow run must not be mistaken for a hang (DESIGN 12.6)
+                    let flags: Vec<&str> = if profile == "cliwide" && mode != "naive" { flags.into_iter().filter(|f| *f != "stmrew2").collect() } else { flags };
                     let flags_s = if flags.is_empty() { "-".to_string() } else { flags.join("+") };
                     out.line(&format!(
                         "cli {mode} {sort} {flags_s} {} {} {} {}",
